@@ -500,3 +500,24 @@ pub fn gen_aggregate(rng: &mut Rng, s: &Schema, cfg: &AggCfg) -> Sel {
     if cfg.allow_limit && rng.chance(1, 3) { sel.limit = Some(rng.below(5) as u64); }
     sel
 }
+
+// ---------------------------------------------------------------------------------------------
+// the intended document of a JSON-flavoured standard line (used to certify noise lines in C06)
+
+pub fn cells_to_jv(t: &StdTable, cells: &[Cell]) -> crate::refx::JV {
+    use crate::refx::JV;
+    let mut fields = Vec::new();
+    for ((n, _), c) in t.schema.cols.iter().zip(cells) {
+        let v = match c {
+            Cell::Null => continue,
+            Cell::Int(i) => JV::Num(i.to_string()),
+            Cell::Real(x) => JV::Num(fmt_json_real(*x)),
+            Cell::Bool(b) => JV::Bool(*b),
+            Cell::Text(s) | Cell::Ts(s) | Cell::Iv(s) => JV::Str(s.clone()),
+            Cell::IntArr(xs) => JV::Arr(xs.iter().map(|x| x.map(|i| JV::Num(i.to_string())).unwrap_or(JV::Null)).collect()),
+            Cell::TextArr(xs) => JV::Arr(xs.iter().map(|x| x.as_ref().map(|s| JV::Str(s.clone())).unwrap_or(JV::Null)).collect()),
+        };
+        fields.push((n.clone(), v));
+    }
+    JV::Obj(fields)
+}
